@@ -4,13 +4,21 @@ Outcome(kind) ==
   CASE kind \in {"valid", "valid2", "renamed_param"} -> "ok"
     [] kind \in {"module_removed", "function_removed", "arg_class_removed", "return_class_removed", "yield_class_removed",
                  "class_module_removed", "local_scope", "class_module_removed_ret", "arg_class_removed_2",
-                 "arg_module_removed_name_prefix", "elem_class_removed"} -> "NameLookupError"
+                 "arg_module_removed_name_prefix", "elem_class_removed",
+                 \* classes whose __module__ is builtins although builtins does not export them (dict_keys, module)
+                 "ret_unexported_builtin", "arg_unexported_builtin",
+                 \* a removed class that occurs only as the type of one FIELD of a stored TypedDict
+                 "td_field_class_removed"} -> "NameLookupError"
     [] kind \in {"now_nonfunction", "now_class", "now_settable_property", "class_now_nontype", "class_now_nontype_ret",
                  "dunder_removed", "dunder_removed_2", "now_builtin", "now_bound_builtin",
                  "elem_class_now_nontype", "elem_class_now_nontype_ret",
                  \* names that still resolve to something function-like which has no place in a stub
                  "now_closure", "prop_getter_nonfunction", "nowraps"} -> "InvalidTypeError"
+    \* the name is now imported from another module: the row decodes - to a function of THAT module, whose stub it belongs to
+    [] kind = "moved_function" -> "ok_elsewhere"
     [] OTHER -> "ok"
-DecodableKind(kind) == Outcome(kind) = "ok"
+DecodableKind(kind) == Outcome(kind) \in {"ok", "ok_elsewhere"}
+\* decodes AND contributes to the stub of the module asked for
+HereKind(kind) == Outcome(kind) = "ok"
 
 =============================================================================
